@@ -525,3 +525,174 @@ def _run_handler(body, model: TreeModel, n: int, genes: Dict[str, str], species_
 
 
 RULES["LAYOUT-SIDES"] = layout_sides
+
+
+# ---------------------------------------------------------------------------
+# the exhaustive enumerator offers every valid placement of a node exactly once
+
+
+class _Stop(Exception):
+    pass
+
+
+def enum_placements(prog: Program) -> RuleResult:
+    """Abstract execution of the placement loops of compute.exhaustive.generate_all over the relational model."""
+    from .model_spec import model_event
+
+    res = RuleResult(
+        "ENUM-PLACEMENTS",
+        "for every pair of placements of the two children (all 15 x 15 pairs of model species), the species at which "
+        "generate_all places the parent - extracted by following its `while ... .up` walks and its transfer loop over "
+        "the relational model - are exactly the species for which the documented classification is not INVALID, each "
+        "yielded once. With the product over the children's enumerations (DECODE-PRODUCT) this is the induction step "
+        "of 'every valid reconciliation exactly once'",
+    )
+    modname = "compute.exhaustive"
+    mod = prog.module(modname)
+    fn = prog.func(modname, "generate_all")
+    model = TreeModel(3)
+    node_var = None
+    unpack = None
+    for st in fn.body:
+        if isinstance(st, ast.Assign) and isinstance(st.targets[0], ast.Tuple) and isinstance(st.value, ast.Attribute) and st.value.attr == "children":
+            unpack = [dotted(e) for e in st.targets[0].elts]
+            node_var = dotted(st.value.value)
+    loops = [st for st in fn.body if isinstance(st, ast.For) and isinstance(st.iter, ast.Call) and (dotted(st.iter.func) or "").endswith("product")]
+    if unpack is None or len(unpack) != 2 or len(loops) != 1:
+        raise AnalysisError("generate_all: children unpacking / product loop not recognised")
+    loop = loops[0]
+    oracle_names = {"species_lca"} | {
+        t.id for st in ast.walk(fn) if isinstance(st, ast.Assign) and isinstance(st.value, ast.Attribute) and st.value.attr == "species_lca"
+        for t in st.targets if isinstance(t, ast.Name)
+    }
+
+    def run(l: int, r: int) -> List[int]:
+        env: Dict[str, Optional[int]] = {}
+        yields: List[int] = []
+        steps = [0]
+
+        def base(expr: ast.AST) -> Optional[int]:
+            if isinstance(expr, ast.Name) and expr.id in env and env[expr.id] is not None:
+                return env[expr.id]
+            if isinstance(expr, ast.Subscript) and isinstance(expr.value, ast.Attribute) and expr.value.attr == "object_species":
+                key = dotted(expr.slice)
+                if key == unpack[0]:
+                    return l
+                if key == unpack[1]:
+                    return r
+            return None
+
+        ev = RelEval(model, base, oracle_names)
+
+        def value(expr: ast.AST) -> Optional[int]:
+            """species term or None (parent of the root)"""
+            if isinstance(expr, ast.Name) and expr.id in env:
+                return env[expr.id]
+            if isinstance(expr, ast.Constant) and expr.value is None:
+                return None
+            if isinstance(expr, ast.Attribute) and expr.attr == "up":
+                inner = value(expr.value)
+                if inner is None:
+                    raise AnalysisError("generate_all: `.up` of None")
+                return model.up(inner)
+            return ev.term(expr)
+
+        def truth(test: ast.AST) -> bool:
+            if isinstance(test, ast.Compare) and len(test.ops) == 1 and isinstance(test.ops[0], (ast.Is, ast.IsNot, ast.Eq, ast.NotEq)):
+                a, b = value(test.left), value(test.comparators[0])
+                same = a == b
+                return same if isinstance(test.ops[0], (ast.Is, ast.Eq)) else not same
+            if isinstance(test, ast.UnaryOp) and isinstance(test.op, ast.Not):
+                return not truth(test.operand)
+            if isinstance(test, ast.BoolOp):
+                vals = [truth(v) for v in test.values]
+                return all(vals) if isinstance(test.op, ast.And) else any(vals)
+            return ev.truth(test)
+
+        def block(stmts) -> Optional[str]:
+            for st in stmts:
+                steps[0] += 1
+                if steps[0] > 2000:
+                    raise AnalysisError("generate_all: placement walk does not terminate on the model")
+                if isinstance(st, ast.Assign) and len(st.targets) == 1 and isinstance(st.targets[0], ast.Name):
+                    env[st.targets[0].id] = value(st.value)
+                elif isinstance(st, ast.While):
+                    while truth(st.test):
+                        steps[0] += 1
+                        if steps[0] > 2000:
+                            raise AnalysisError("generate_all: placement walk does not terminate on the model")
+                        out = block(st.body)
+                        if out == "break":
+                            break
+                elif isinstance(st, ast.For) and isinstance(st.iter, (ast.Tuple, ast.List)) and isinstance(st.target, ast.Tuple):
+                    for elt in st.iter.elts:
+                        if not (isinstance(elt, ast.Tuple) and len(elt.elts) == len(st.target.elts)):
+                            raise AnalysisError("generate_all: loop over pairs not recognised")
+                        for t, v in zip(st.target.elts, elt.elts):
+                            env[dotted(t)] = value(v)
+                        out = block(st.body)
+                        if out == "break":
+                            break
+                elif isinstance(st, ast.If):
+                    out = block(st.body if truth(st.test) else st.orelse)
+                    if out:
+                        return out
+                elif isinstance(st, ast.Continue):
+                    return "continue"
+                elif isinstance(st, ast.Break):
+                    return "break"
+                elif isinstance(st, ast.Expr) and isinstance(st.value, ast.Yield):
+                    call = st.value.value
+                    placed = None
+                    for x in ast.walk(call):
+                        if isinstance(x, ast.Dict):
+                            for k, v in zip(x.keys, x.values):
+                                if k is not None and dotted(k) == node_var:
+                                    placed = value(v)
+                    if placed is None:
+                        raise AnalysisError("generate_all: a yielded output does not place the node")
+                    yields.append(placed)
+                elif isinstance(st, (ast.Pass, ast.Expr)):
+                    continue
+                else:
+                    raise AnalysisError(f"generate_all: statement `{short(st)}` not supported by the placement walk")
+            return None
+
+        block(loop.body)
+        return yields
+
+    missing = extra = dup = None
+    n_pairs = 0
+    for l in model.nodes:
+        for r in model.nodes:
+            n_pairs += 1
+            got = run(l, r)
+            want = {n for n in model.nodes if model_event(model, n, l, r) != "INVALID"}
+            if len(got) != len(set(got)) and dup is None:
+                d = next(x for x in got if got.count(x) > 1)
+                dup = (d, l, r)
+            if want - set(got) and missing is None:
+                missing = (sorted(want - set(got))[0], l, r)
+            if set(got) - want and extra is None:
+                extra = (sorted(set(got) - want)[0], l, r)
+    names = ("parent", "first child", "second child")
+    for label, found, text in (
+        ("complete", missing, "is a valid placement ({ev}) that is never yielded"),
+        ("sound", extra, "is yielded although the placement is INVALID"),
+        ("once", dup, "is yielded more than once"),
+    ):
+        construct = f"{modname}:generate_all/placements/{label}"
+        if found is None:
+            res.ok(construct, f"{n_pairs} pairs of child placements")
+        else:
+            n, l, r = found
+            res.fail(
+                construct,
+                f"parent {text.format(ev=model_event(model, n, l, r))} when {model.describe(names, (n, l, r))}",
+                mod,
+                loop,
+            )
+    return res
+
+
+RULES["ENUM-PLACEMENTS"] = enum_placements
